@@ -113,6 +113,78 @@ def fs_canonicalize(P, c, args, dt):
     return _io_err('NotFound')
 
 
+@model('std::fs::OpenOptions::new', 'std::fs::File::options')
+def oo_new(P, c, args, dt):
+    return Opaque('OpenOptions', {})
+
+
+@pattern(r'std::fs::OpenOptions::(read|write|append|truncate|create|create_new)$')
+def oo_flag(P, c, args, dt):
+    o = tgt(args[0])
+    v = args[1]
+    o.p[c.method] = bool(v.v) if isinstance(v, Sc) and v.concrete else True
+    return args[0]
+
+
+@model('std::fs::OpenOptions::open')
+def oo_open(P, c, args, dt):
+    o = tgt(args[0])
+    p = _p(args[1], P)
+    f = _fault(P, 'open', p)
+    if f is not None:
+        return f
+    fs = _fs(P)
+    exists = p in fs
+    if o.p.get('create_new'):
+        if exists:
+            return _io_err('AlreadyExists')
+        fs[p] = StringV([])
+        return ok(Opaque('File', p))
+    if not exists:
+        if o.p.get('create'):
+            fs[p] = StringV([])
+            return ok(Opaque('File', p))
+        return _io_err('NotFound')
+    if o.p.get('truncate'):
+        fs[p] = StringV([])
+    return ok(Opaque('File', p))
+
+
+@model('std::fs::metadata', 'std::fs::symlink_metadata', 'std::path::Path::metadata')
+def fs_metadata(P, c, args, dt):
+    p = _p(args[0], P)
+    f = _fault(P, 'metadata', p)
+    if f is not None:
+        return f
+    fs = _fs(P)
+    v = fs.get(p)
+    if v is not None and v != 'DIR':
+        return ok(Opaque('Metadata', {'file': True, 'dir': False, 'len': len(v.buf.b)}))
+    if v == 'DIR' or any(k.startswith(p + '/') for k in fs):
+        return ok(Opaque('Metadata', {'file': False, 'dir': True, 'len': 0}))
+    return _io_err('NotFound')
+
+
+@model('std::fs::Metadata::is_file')
+def md_is_file(P, c, args, dt):
+    return sc_bool(tgt(args[0]).p['file'])
+
+
+@model('std::fs::Metadata::is_dir')
+def md_is_dir(P, c, args, dt):
+    return sc_bool(tgt(args[0]).p['dir'])
+
+
+@model('std::fs::Metadata::len')
+def md_len(P, c, args, dt):
+    return Sc(tgt(args[0]).p['len'], 64)
+
+
+@model('std::thread::sleep')
+def thread_sleep(P, c, args, dt):
+    return unit()
+
+
 @model('std::fs::read_to_string')
 def fs_read_to_string(P, c, args, dt):
     p = _p(args[0])
@@ -228,5 +300,5 @@ def io_error_new(P, c, args, dt):
 @model('std::io::Error::kind')
 def io_error_kind(P, c, args, dt):
     e = tgt(args[0])
-    k = e.p if isinstance(e.p, str) and e.p in ('NotFound', 'PermissionDenied') else 'Other'
+    k = e.p if isinstance(e.p, str) and e.p in ('NotFound', 'PermissionDenied', 'AlreadyExists') else 'Other'
     return En('std::io::ErrorKind', k, [])
